@@ -5,6 +5,7 @@ go 1.14
 require (
 	github.com/anishathalye/porcupine v1.3.0
 	github.com/bytecodealliance/wasmtime-go v0.37.0
+	github.com/cbergoon/merkletree v0.2.0
 	github.com/meshplus/bitxhub v0.0.0
 	github.com/meshplus/bitxhub-core v1.28.1-0.20230411032641-11245b4adfc5
 	github.com/meshplus/bitxhub-kit v1.28.0
